@@ -20,6 +20,7 @@ pub mod stubs;
 pub mod c05;
 pub mod c06;
 pub mod c07;
+pub mod c08;
 pub mod c10;
 pub mod c12;
 pub mod c13;
@@ -129,6 +130,25 @@ macro_rules! harnesses {
         #[kani::stub(<avra_lib::expr::Expr as core::clone::Clone>::clone, stubs::clone_leaf)]
         #[kani::stub(avra_lib::instruction::process, step::process_model)]
         #[kani::stub(<avra_lib::parser::Item as core::clone::Clone>::clone, step::item_clone_model)]
+        fn $name() {
+            let mut src = src::KaniSrc;
+            let $s = &mut src;
+            $body;
+        }
+    };
+    // mode cond: leaf restriction + the text grammar replaced by a line-code lookup (C08 attempt)
+    (@proof cond, $name:ident, $f:literal, $unwind:expr, $s:ident, $body:expr) => {
+        #[cfg(all(kani, feature = $f))]
+        #[kani::proof]
+        #[kani::unwind($unwind)]
+        #[kani::stub(alloc::fmt::format, stubs::format_stub)]
+        #[kani::stub(std::env::var_os, stubs::var_os_stub)]
+        #[kani::stub(core::str::slice_error_fail, stubs::slice_error_fail_stub)]
+        #[kani::stub(str::to_lowercase, stubs::to_lowercase_stub)]
+        #[kani::stub(avra_lib::expr::Expr::run, stubs::run_leaf)]
+        #[kani::stub(<avra_lib::expr::Expr as core::clone::Clone>::clone, stubs::clone_leaf)]
+        #[kani::stub(avra_lib::document::document::line, c08::line_stub)]
+        #[kani::stub(avra_lib::parser::parse_file_internal, c08::no_include_stub)]
         fn $name() {
             let mut src = src::KaniSrc;
             let $s = &mut src;
@@ -601,4 +621,6 @@ harnesses! {
     c10_alias_ri_all1 { prop: C10, feat: "c10", tier: thorough, mode: leaf, unwind: 5, caps: "drop=1" } => |s| c10::bind_alias(s, 16, 18, 2);
     c10_alias_ri_all2 { prop: C10, feat: "c10", tier: thorough, mode: leaf, unwind: 5, caps: "drop=1" } => |s| c10::bind_alias(s, 18, 20, 2);
     c10_alias_ri_all3 { prop: C10, feat: "c10", tier: thorough, mode: leaf, unwind: 5, caps: "drop=1" } => |s| c10::bind_alias(s, 20, 21, 2);
+    cond_probe_3 { prop: X08, feat: "c08", tier: thorough, mode: cond, unwind: 5, caps: "drop=1" } => |s| c08::cond_n(s, 3);
+    cond_probe_5 { prop: X08, feat: "c08", tier: thorough, mode: cond, unwind: 7, caps: "drop=1" } => |s| c08::cond_n(s, 5);
 }
